@@ -30,10 +30,41 @@ def push(data: bytes, form=None):
     return b"\x4e" + struct.pack("<I", n) + data
 
 
+_P = 2**256 - 2**32 - 977     # secp256k1 field prime (p = 3 mod 4: square roots by one exponentiation)
+
+
+def curve_point(rng):
+    """A point on secp256k1 (random x until x^3+7 is a square): what every real public key is. Random 64 bytes never are."""
+    while True:
+        x = rng.getrandbits(256) % _P
+        rhs = (pow(x, 3, _P) + 7) % _P
+        y = pow(rhs, (_P + 1) // 4, _P)
+        if y * y % _P == rhs:
+            if rng.random() < 0.5:
+                y = _P - y
+            return x, y
+
+
 def pubkey(rng, size=33):
+    """Key material for a 33- or 65-byte push. Half of the keys are valid curve points in every SEC1 form a node accepts on the wire
+    (compressed 02/03, uncompressed 04, hybrid 06/07 with the parity of y in the prefix), some are near-keys (hybrid prefix with the
+    wrong parity, x not on the curve), the rest are random bytes with a key prefix. Scripts are judged by their bytes: the address of a
+    P2PK output is derived from the PUSHED bytes whatever they encode."""
+    r = rng.random()
+    if r < 0.5:
+        x, y = curve_point(rng)
+        xb, yb = x.to_bytes(32, "big"), y.to_bytes(32, "big")
+        if size == 33:
+            return bytes([2 + (y & 1)]) + xb
+        form = rng.random()
+        if form < 0.5:
+            return b"\x04" + xb + yb
+        if form < 0.85:
+            return bytes([6 + (y & 1)]) + xb + yb            # hybrid, valid
+        return bytes([7 - (y & 1)]) + xb + yb                # hybrid prefix contradicting y
     if size == 33:
         return bytes([rng.choice([2, 3])]) + rbytes(rng, 32)
-    return b"\x04" + rbytes(rng, 64)
+    return bytes([rng.choice([4, 4, 4, 6, 7])]) + rbytes(rng, 64)
 
 
 def std_script(rng, coin, kind=None, key=None):
@@ -163,3 +194,28 @@ def simple_chain(rng, coin, n_blocks, genesis=False, max_tx=4, start_height=0):
     while len(cb.blocks) < n_blocks:
         cb.add_block(n_tx=rng.randint(0, max_tx))
     return cb.chain()
+
+
+def add_slack(rng, chain, coin, share=0.3):
+    """Records that are longer than their block: the stored length prefix also covers bytes BEHIND the serialised block (zeros, noise,
+    or what looks like a complete record of another block - magic, length, block). A reader takes the block from the record's offset;
+    where the next record begins follows from the index, never from how many bytes the parser happened to consume. blocksize (the
+    stored prefix) includes the slack; nothing else changes. Returns the number of padded records."""
+    import struct
+    from .chain import COINS
+    c = COINS[coin] if isinstance(coin, str) else coin
+    n = 0
+    for h, b in chain:
+        if rng.random() < share:
+            kind = rng.choice(["zeros", "noise", "record"])
+            if kind == "zeros":
+                b.slack = bytes(rng.choice([1, 4, 8, 80, 300]))
+            elif kind == "noise":
+                b.slack = rbytes(rng, rng.choice([1, 7, 8, 81, 500]))
+            else:
+                other = ChainBuilder(rng, c.name if hasattr(c, "name") else coin, start_height=h + 1)
+                other.prev = b.hash
+                ob = other.add_block(n_tx=rng.randint(0, 2)).ser()
+                b.slack = struct.pack("<I", c.magic) + struct.pack("<I", len(ob)) + ob
+            n += 1
+    return n
